@@ -193,6 +193,12 @@ RecvError ==   \* the channel's Recv fails with a non-EOF error
   /\ UNCHANGED <<basedone, nin, inq, work, dpc, dbatch, nbar, task, bat, sem, semq, used, calls, callID,
                  cb, cbw, npush, ch, err, sendOK, wsret, gen, ncancel, crashed, out>>
 
+RecvClosing ==   \* Recv fails with a closing-class error (channel.IsErrClosing) although the server did not close the channel
+  /\ Alive /\ "recvclosing" \in Faults /\ ~peerClosed /\ rdpc = "recv" /\ rdbuf = None
+  /\ peerClosed' = TRUE /\ rdbuf' = CLSr /\ rdpc' = "proc"
+  /\ UNCHANGED <<basedone, nin, inq, work, dpc, dbatch, nbar, task, bat, sem, semq, used, calls, callID,
+                 cb, cbw, npush, ch, err, sendOK, wsret, gen, ncancel, crashed, out>>
+
 SendFails ==   \* from now on the channel's Send reports an error
   /\ Alive /\ "sendfail" \in Faults /\ sendOK
   /\ sendOK' = FALSE
@@ -497,6 +503,7 @@ Next ==
   \/ \E m \in Pool : PeerSend(m)
   \/ PeerClose
   \/ RecvError
+  \/ RecvClosing
   \/ SendFails
   \/ RdProcess
   \/ RdFail
@@ -577,6 +584,8 @@ C09_CallsMatchWaiters ==
   /\ \A id \in DOMAIN calls : \E c \in DOMAIN cb : cb[c].id = id
   /\ \A c \in DOMAIN cb : cb[c].st = "wait" => (cb[c].id \in DOMAIN calls \/ cbw[cb[c].id] = "gate")
 C09_UniqueIds == \A c1, c2 \in DOMAIN cb : (c1 # c2 /\ cb[c1].id # 0 /\ cb[c2].id # 0) => cb[c1].id # cb[c2].id
+\* without AllowPush every Callback is refused as unsupported - whatever the state of the connection - and nothing is registered
+C09_Unsupported == ~AllowPush => (calls = EmptyFn /\ \A c \in DOMAIN cb : cb[c].res = "unsupported")
 \* no reply-shaped member is ever answered on a push server (F9)
 C09_NoAnswerToLateReply ==
   AllowPush => \A s \in Srcs : task[s].k # "reply"
